@@ -77,10 +77,15 @@ def gen_procprog(rng: random.Random) -> dict:
 
     def gen_emit(existing_futs: bool = True) -> dict:
         if existing_futs and fut_counter[0] > 0 and rng.random() < 0.6:
-            return {"kind": "resolve", "f": rng.randrange(fut_counter[0]), "val": rng.randrange(1000),
+            return {"kind": "resolve", "f": rng.randrange(fut_counter[0]), "val": gen_val(),
                     "dt": rng.choice(DTS_NS)}
         note_counter[0] += 1
         return {"kind": "note", "id": note_counter[0] - 1, "dt": rng.choice(DTS_NS)}
+
+    def gen_val():
+        if fut_counter[0] > 0 and rng.random() < 0.08:
+            return {"fut": rng.randrange(fut_counter[0])}   # a future object handed over as a plain value
+        return rng.randrange(1000)
 
     def gen_steps(depth: int, budget: int, slot_counter: list) -> list:
         steps = []
@@ -105,7 +110,7 @@ def gen_procprog(rng: random.Random) -> dict:
                     tree = {"any": [tree, leaf(in_tree, direct=False)]}
                 steps.append({"op": "make", "slot": k, "tree": tree})
             elif r < 0.85 and fut_counter[0] > 0:
-                steps.append({"op": "resolve_now", "f": rng.randrange(fut_counter[0]), "val": rng.randrange(1000)})
+                steps.append({"op": "resolve_now", "f": rng.randrange(fut_counter[0]), "val": gen_val()})
             elif r < 0.95 and depth < 2:
                 steps.append({"op": "sub", "steps": gen_steps(depth + 1, 3, slot_counter)})
             else:
@@ -118,7 +123,7 @@ def gen_procprog(rng: random.Random) -> dict:
     procs = []
     for _ in range(n_procs):
         steps = gen_steps(0, 6, [0])
-        procs.append({"t": rng.choice(TIMES_NS), "hook": rng.random() < 0.5, "hook_when": rng.choice(["create", "create", "body"]),
+        procs.append({"t": rng.choice(TIMES_NS), "hook": rng.random() < 0.5, "hook_when": rng.choice(["create", "create", "body"]), "wrap_gen": rng.random() < 0.15,
                       "hook_emits": [], "steps": steps, "ret": rng.choice(["none", "one", "list"]),
                       "ret_emits": [], "daemon": rng.random() < 0.1})
     # emits that refer to any future (now that all exist)
@@ -129,13 +134,14 @@ def gen_procprog(rng: random.Random) -> dict:
     initial = []
     for f in range(fut_counter[0]):
         for _ in range(rng.choice([0, 1, 1, 1, 2])):
-            initial.append({"kind": "resolve", "f": f, "val": rng.randrange(1000), "t": rng.choice(TIMES_NS)})
+            initial.append({"kind": "resolve", "f": f, "val": gen_val(), "t": rng.choice(TIMES_NS)})
     for _ in range(rng.randint(0, 3)):
         note_counter[0] += 1
         initial.append({"kind": "note", "id": note_counter[0] - 1, "t": rng.choice(TIMES_NS)})
     rng.shuffle(initial)
-    plain = [{"t": rng.choice(TIMES_NS), "hook_emits": [gen_emit() for _ in range(rng.choice([0, 1]))]}
-             for _ in range(rng.choice([0, 0, 1, 2]))]
+    plain = [{"t": rng.choice(TIMES_NS), "hook_emits": [gen_emit() for _ in range(rng.choice([0, 1, 1]))],
+              "ret_shared": rng.random() < 0.6}
+             for _ in range(rng.choice([0, 0, 1, 2, 3, 4]))]
     return {"futures": fut_counter[0], "procs": procs, "initial": initial, "plain": plain,
             "loop": rng.choice(["auto", "fast", "control"])}
 
@@ -213,7 +219,12 @@ def validate(sc: dict) -> None:
             walk_emit(e)
 
 
+_FUT_INDEX: dict[int, int] = {}
+
+
 def _norm(v):
+    if isinstance(v, SimFuture):
+        return ["FUT", _FUT_INDEX.get(id(v), -1)]   # a future passed as a plain value (a handle)
     if isinstance(v, tuple):
         return [_norm(x) for x in v]
     if isinstance(v, list):
@@ -232,7 +243,7 @@ class _Resolver(Entity):
 
     def handle_event(self, event):
         f, val = event.context["metadata"]["f"], event.context["metadata"]["val"]
-        self.w.futs[f].resolve(val)
+        self.w.futs[f].resolve(self.w.value(val))
         return None
 
 
@@ -250,10 +261,30 @@ class _Plain(Entity):
     def __init__(self, world):
         super().__init__("Plain")
         self.w = world
+        self._NOTHING: list = []   # one list object returned by every call (a handler's shared "no events" constant)
 
     def handle_event(self, event):
         self.w.plain_log.append((event.context["metadata"]["idx"], self.now.nanoseconds))
-        return None
+        return self._NOTHING if self.w.sc["plain"][event.context["metadata"]["idx"]].get("ret_shared") else None
+
+
+import collections.abc as _abc
+
+
+class GenWrapper(_abc.Generator):
+    """A generator object that is not a native generator (an auditing wrapper): legal per the Generator ABC."""
+
+    def __init__(self, gen):
+        self._gen = gen
+
+    def send(self, value):
+        return self._gen.send(value)
+
+    def throw(self, typ=None, val=None, tb=None):
+        return self._gen.throw(typ) if val is None else self._gen.throw(typ, val, tb)
+
+    def close(self):
+        return self._gen.close()
 
 
 class _Proc(Entity):
@@ -264,7 +295,9 @@ class _Proc(Entity):
         self._NO_EVENTS: list = []
 
     def handle_event(self, event):
-        return self._body(self.w.sc["procs"][self.idx], event)
+        p = self.w.sc["procs"][self.idx]
+        body = self._body(p, event)
+        return GenWrapper(body) if p.get("wrap_gen") else body
 
     def _body(self, p, event):
         w = self.w
@@ -310,7 +343,7 @@ class _Proc(Entity):
                 v = yield fut
                 log.append((kind, self.now.nanoseconds, _norm(v)))
             elif op == "resolve_now":
-                w.futs[s["f"]].resolve(s["val"])
+                w.futs[s["f"]].resolve(w.value(s["val"]))
             elif op == "sub":
                 yield from self._steps(s["steps"], log, slots)
 
@@ -323,6 +356,9 @@ class EngineWorld:
     def __init__(self, sc: dict):
         self.sc = sc
         self.futs = [SimFuture() for _ in range(sc["futures"])]
+        _FUT_INDEX.clear()
+        for i, f in enumerate(self.futs):
+            _FUT_INDEX[id(f)] = i
         self.plog = [[] for _ in sc["procs"]]
         self.hooks: list[tuple] = []
         self.notes: list[tuple] = []
@@ -334,6 +370,12 @@ class EngineWorld:
 
     def entities(self):
         return [self.resolver, self.recorder, self.plain] + self.procs
+
+    def value(self, val):
+        """Scenario values are ints, or {"fut": j}: the j-th future object itself, handed over as a value."""
+        if isinstance(val, dict):
+            return self.futs[val["fut"] % len(self.futs)]
+        return val
 
     def make_event(self, t_ns: int, e: dict) -> Event:
         if e["kind"] == "resolve":
@@ -443,6 +485,8 @@ class RefWorld:
         return ([k[0] for k in kids], max([k[1] for k in kids] + [built_order]), any(k[2] for k in kids))
 
     def resolve_leaf(self, f, val):
+        if isinstance(val, dict):
+            val = ["FUT", val["fut"] % max(1, self.sc["futures"])]
         if self.leaf[f] is not None:
             self.probes["resolve_twice"] += 1
             return
